@@ -456,6 +456,41 @@ def main():
     add("(* read/write_vcpu_struct_field: self.read|write(address, ..., x, y) with the default p = 0 *)\n")
     add(defn("vcpu_access_core", [], "Z", D.z(0)))
 
+    # ------------------------------------------------------------------ the struct tables are controller state
+    cls = [n for n in tree.body if isinstance(n, ast.ClassDef) and n.name == "MachineController"]
+    need(len(cls) == 1, tree, "class MachineController")
+    stores, other = [], []
+    for fn_ in cls[0].body:
+        if not isinstance(fn_, ast.FunctionDef):
+            continue
+        for n in ast.walk(fn_):
+            if isinstance(n, ast.Attribute) and U(n) == "self.structs":
+                if isinstance(n.ctx, (ast.Store, ast.Del)):
+                    stores.append((fn_.name, n))
+        for n in ast.walk(fn_):
+            # self.structs.<method>(...) or self.structs[...] = ... would change the tables in place
+            if isinstance(n, ast.Call) and isinstance(n.func, ast.Attribute) and U(n.func.value) == "self.structs":
+                other.append((fn_.name, n))
+            if isinstance(n, ast.Subscript) and U(n.value) == "self.structs" and isinstance(n.ctx, (ast.Store, ast.Del)):
+                other.append((fn_.name, n))
+    need(not other, other[0][1] if other else tree, "self.structs is never updated in place")
+    need(sorted(f for f, _ in stores) == ["__init__", "__init__", "boot"], tree,
+         "self.structs is assigned in __init__ (twice) and in boot only, found %r" % sorted(f for f, _ in stores))
+    f = py2v.find_function(tree, "MachineController.__init__")
+    txt = [U(st_) for st_ in strip_doc(f.body)]
+    need("self.structs = structs" in txt and
+         "if self.structs is None:\n    struct_data = pkg_resources.resource_string('rig', 'boot/sark.struct')\n"
+         "    self.structs = struct_file.read_struct_file(struct_data)" in txt, f,
+         "__init__: self.structs = structs, the bundled boot/sark.struct when None")
+    f = py2v.find_function(tree, "MachineController.boot")
+    txt = [U(st_) for st_ in strip_doc(f.body)]
+    need("self.structs = boot.boot(self.initial_host, **boot_kwargs)" in txt and "assert len(self.structs) > 0" in txt, f,
+         "boot: self.structs = boot.boot(self.initial_host, **boot_kwargs) at the top level of the method")
+    add("(* %s : the struct tables are state of the controller: assigned by __init__ (the argument, or the bundled\n"
+        "   boot/sark.struct) and REPLACED by boot() with the tables boot.boot() returns; never updated in place;\n"
+        "   every accessor above looks them up in self.structs at the time of the call *)\n" % MC)
+    add("Definition boot_replaces_structs : bool :=\n  true.\n")
+
     # ------------------------------------------------------------------ fill
     f, b = method("fill", ["address", "data", "size", "x", "y", "p"])
     need(len(b) == 1 and isinstance(b[0], ast.If) and len(b[0].body) == 2 and len(b[0].orelse) == 1, f,
